@@ -1,20 +1,28 @@
 #!/usr/bin/env python
-"""developer tool: verify named functions and print obligations"""
-import sys, time
+"""developer tool: verify named functions (all by default, in parallel) and print obligations"""
+import sys, time, os
 sys.path.insert(0, '/verif')
+import multiprocessing as mp
+from pyvc.runner import _worker
 from pyvc.load import build
-from pyvc.verify import verify_function
-w, reg, stubs = build()
-quals = sys.argv[1:] or reg.quals()
-for q in quals:
-    r = verify_function(w, reg, stubs, q)
-    print('== %s: %s paths=%d obligations=%d proved=%d refuted=%d unknown=%d wall=%.2fs feas=%d(%.2fs)' % (
-        q, r.status, r.paths, len(r.obligations), len(r.proved), len(r.refuted), len(r.unknown), r.wall,
-        r.stats.get('feas_calls', 0), r.stats.get('feas_s', 0)))
-    if r.status != 'ok':
-        print('   ', r.reason)
-    for o in r.obligations:
-        if o.status != 'proved' or '-v' in sys.argv:
-            print('   %-8s %6.2fs %s %s' % (o.status, o.seconds, o.name, o.reason))
-    for name, cm, txt in r.counterexamples:
-        print('   CEX', name, txt)
+
+def main():
+    w, reg, stubs = build()
+    args = [a for a in sys.argv[1:] if not a.startswith('-')]
+    quals = args or reg.quals()
+    t0 = time.time()
+    with mp.get_context('fork').Pool(min(16, len(quals))) as pool:
+        res = pool.map(_worker, [(q, 10000, False) for q in quals], chunksize=1)
+    for r in res:
+        print('== %s: %s paths=%d obligations=%d proved=%d refuted=%d unknown=%d wall=%.2fs feas=%d(%.2fs)' % (
+            r.qual, r.status, r.paths, len(r.obligations), len(r.proved), len(r.refuted), len(r.unknown), r.wall,
+            r.stats.get('feas_calls', 0), r.stats.get('feas_s', 0)))
+        if r.status != 'ok':
+            print('   ', r.reason[:1500])
+        for o in r.obligations:
+            if o.status != 'proved' or '-v' in sys.argv:
+                print('   %-8s %6.2fs %s %s' % (o.status, o.seconds, o.name, o.reason))
+        for name, cm, txt in r.counterexamples:
+            print('   CEX', name, str(txt)[:600])
+    print('total wall %.1fs' % (time.time() - t0))
+main()
